@@ -667,6 +667,7 @@ func TestC07(t *testing.T) {
 		kC07Bech.Run(t, ev, perShard(pick(3000, 1500000)))
 		kC07BechStr.Run(t, ev, perShard(pick(4000, 2000000)))
 		kC07Conv.Run(t, ev, perShard(pick(6000, 3000000)))
+		kC07Alias.Run(t, ev, perShard(pick(300, 20000)))
 		runConcurrent(kC07Bech, t, ev, perShard(pick(150, 15000)), 8)
 		runConcurrent(kC07BechStr, t, ev, perShard(pick(150, 15000)), 8)
 		runConcurrent(kC07Check, t, ev, perShard(pick(150, 15000)), 8)
